@@ -570,4 +570,9 @@ def w1(ctx):
                     if callee in BLOCKING_CALLS:
                         ctx.violate(key, p, 'blocking call %s while the channel lock is held (every other operation spins until it returns)' % callee, at=e.at)
             if p.end == 'return' and held:
+                from mir import private_helper as _ph
+                if _ph(b) and p.ret is not None and all(contains(p.ret, h.data['guard']) for h in held.values()):
+                    # a private helper handing the still-held guard back to its caller (`TimedWait::Cancelled(guard)`,
+                    # `Result<T, Guard>`): the critical section continues in the caller, whose paths contain this body
+                    continue
                 ctx.violate(key, p, 'returns with the channel lock still held (guard moved out or leaked)')
